@@ -25,6 +25,7 @@ CONSTANTS
   MaxSteps = 6
   RationalOnly = TRUE
   Twins = TRUE
+  Chain = FALSE
   NeedDt = FALSE
   BindLeaves = TRUE
   EmitOn = TRUE
